@@ -637,7 +637,7 @@ func (e *EnumType) Set(name string, value int64) error {
 // SetNext sets the name in e using the next possible value that is greater than
 // all previous values.
 func (e *EnumType) SetNext(name string) error {
-	if e.last == MaxEnum {
+	if e.last >= e.max {
 		return fmt.Errorf("enum %q must specify a value since previous enum is the maximum value allowed", name)
 	}
 	return e.Set(name, e.last+1)
